@@ -414,8 +414,9 @@ Fixpoint pols_run (n : nat) (m : mstate) (ops : list op) : list policy :=
 (* ---- fmakunbound -------------------------------------------------------------------------------------------
    Since repo_fixes/C08-5 and C08-6 fmakunbound turns the registered Lambda into the Lambda of an undefined function
    and CompileList reuses it, so M follows S after a fmakunbound as well; the correspondence compares every
-   outcome of every history with S.  The history THEOREMS are still stated for the histories without OFmak
-   (`no_fmak`): the invariant of Proofs.v has no clause for a registered Lambda without a creator yet.  After a
+   outcome of every history with S.  The history theorems of Proofs.v / ProofsLate.v are stated for the histories
+   without OFmak (`no_fmak`): the invariant of Proofs.v has no clause for a registered Lambda without a creator;
+   ProofsFmak.v has it and proves the refinement for EVERY history, the exactness for `fmak_clean` histories.  After a
    fmakunbound the lookup time of the undefined name differs between call sites (compiled earlier: after the
    arguments; list form: before), which the per-name policy of evalL does not express: the exactness self-check
    of the correspondence covers the observations before the first OFmak (`before_fmak`). *)
